@@ -693,6 +693,67 @@ pub fn main(args: &Args) -> ! {
             }
         }
     }
+    // the client closes before its first flight has left: the only datagram the server ever sees is an
+    // Initial carrying CONNECTION_CLOSE. Whatever the server creates for it must be gone within 3 PTO
+    {
+        let mut n = 0u64;
+        for cfg in cfgs() {
+            for hold in [false, true] {
+                n += 1;
+                rep.evaluations += 1;
+                let r = explore::guarded(|| {
+                    let mut p = std_pair_pre(base, &cfg, Wl::W1, ReadMode::default(), |w| {
+                        w.connect_unsettled = true;
+                        if hold {
+                            w.nodes[SERVER].policy = crate::sim::AcceptPolicy::Hold;
+                        }
+                    });
+                    let now = p.w.now();
+                    let ch = p.cch;
+                    if let Some(s) = p.w.nodes[CLIENT].conns.get_mut(&ch) {
+                        s.conn.close(now, proto::VarInt::from_u32(7), bytes::Bytes::from_static(b"early"));
+                    }
+                    p.w.settle_conn(CLIENT, ch);
+                    let mut g = 0;
+                    while g < 2000 && p.w.t < Duration::from_secs(8) {
+                        g += 1;
+                        if hold && p.w.steps == 3 {
+                            apply_op(&mut p, &Op::AcceptHeld);
+                        }
+                        if !p.w.step() {
+                            break;
+                        }
+                    }
+                    if hold {
+                        apply_op(&mut p, &Op::AcceptHeld);
+                        let until = p.w.t + Duration::from_secs(8);
+                        let mut g = 0;
+                        while g < 2000 {
+                            g += 1;
+                            match p.w.next_event() {
+                                Some((at, _)) if at <= until => {
+                                    p.w.step();
+                                }
+                                _ => break,
+                            }
+                        }
+                    }
+                    let alive: Vec<String> = p.w.nodes[SERVER].conns.values().filter(|s| !s.conn.is_drained()).map(|s| format!("{} (timers {:?})", s.conn.verif_probe().state, s.conn.verif_probe().timers.iter().map(|t| t.0).collect::<Vec<_>>())).collect();
+                    (alive, p.w.nodes[SERVER].ep.open_connections(), p.w.t)
+                });
+                let rj = json!({"check":"c08","kind":"close_before_first_flight","cfg":cfg.client.name,"hold":hold});
+                match r {
+                    Err(e) => rep.violation(Violation { signature: "panic".into(), what: format!("cfg={} close before the first flight: panic: {e}", cfg.client.name), replay: rj }),
+                    Ok((alive, open, t)) => {
+                        if !alive.is_empty() || open != 0 {
+                            rep.violation(Violation { signature: "never-drained:server:close-in-first-initial".into(), what: format!("cfg={} accept {}: the client closed before sending anything, its only datagram is an Initial carrying CONNECTION_CLOSE; {t:?} later the server still has {open} open connection(s): {alive:?}", cfg.client.name, if hold { "held by the application for a while" } else { "at once" }), replay: rj });
+                        }
+                    }
+                }
+            }
+        }
+        rep.part("close_before_first_flight", json!({"cases": n}));
+    }
     let total = cases.len();
     let (res, capped) = e3(cases, dl, |c| run_case(base, c, false));
     rep.exhaustive = !capped;
